@@ -491,6 +491,7 @@ func runC10(c *Ctx) {
 			}
 			c.CountSite()
 			how := ""
+			partial := ""
 			// (i) dominating comparison involving len(data) with a limit
 			for _, f := range FactsAt(call.Block()) {
 				cmp, ok := f.AsCmp()
@@ -525,7 +526,19 @@ func runC10(c *Ctx) {
 					return false
 				}
 				involvesLen := involves(x, 0)
-				if involvesLen {
+				// ... and what the buffer already holds (seed C08m judged each Write by itself: a
+				// message handed over in several Writes, each within the limit, was collected whole)
+				involvesHeld := false
+				bufPath := PathOf(call.Common().Args[0])
+				for _, l := range Origins(x) {
+					if l.Kind == "call" && IsCallTo(l.Call, "(*bytes.Buffer).Len") && PathOf(l.Call.Common().Args[0]) == bufPath {
+						involvesHeld = true
+					}
+				}
+				if involvesLen && !involvesHeld {
+					partial = "the comparison with the limit looks at the incoming bytes only, not at what the buffer already holds: a message delivered in several Writes is collected without bound"
+				}
+				if involvesLen && involvesHeld {
 					how = "dominating check: size of incoming data (plus what is buffered) <= limit"
 					if f.If != nil {
 						exceedChecks = append(exceedChecks, f.If)
@@ -564,6 +577,10 @@ func runC10(c *Ctx) {
 						how = "amount limited by a byte counter all of whose stores are constants or checked against the limit"
 					}
 				}
+			}
+			if how == "" && partial != "" {
+				c.Bad("C10.3", FuncName(fn), "append-handler-bytes", call.Pos(), partial)
+				continue
 			}
 			c.Check(how != "", "C10.3", FuncName(fn), "append-handler-bytes", call.Pos(), how,
 				"handler-supplied bytes are appended to a buffer without a dominating comparison with the message limit and outside a bounded byte counter: a backend can make the transcoder buffer without bound")
